@@ -65,6 +65,19 @@ def base_variants(rng, ast, per_node_annot=2):
                 out.append(('a', pc, variant(lambda fl, i=i, m=m: fl[i][0]['rings'].insert(0, (rng.choice([None, 2]), m, False)))))
             m = rng.choice(free_pct)
             out.append(('a', pc + '_pct', variant(lambda fl, i=i, m=m: fl[i][0]['rings'].append((None, m, True)))))
+            # ... and an index that an EARLIER ring of the same string used and closed, opened once more and left open
+            closed = {}
+            for j in range(i):
+                for (_, m2, pct2) in flat[j][0]['rings']:
+                    closed.setdefault(m2, []).append(pct2)
+            done = [(m2, v[0]) for m2, v in closed.items() if len(v) == 2 and not any(r[1] == m2 for k in range(i, n) for r in flat[k][0]['rings'])]
+            if done:
+                m2, pct2 = rng.choice(done)
+
+                def reuse(fl, i=i, m2=m2, pct2=pct2):
+                    fl[i][0]['rings'].append((None, m2, pct2))
+                    fl[i][0]['rings'].sort(key=lambda r: (r[2] or r[1] >= 10))
+                out.append(('a', pc + '_reused_index', variant(reuse)))
         # (b) duplicate of the edge to the parent
         if parent is not None and ringable and not unit and parent['mult'] == 1 and not any(b['mult'] > 1 for b in parent['branches']):
             j = next(k for k, x in enumerate(flat) if x[0] is parent)
